@@ -542,6 +542,15 @@ func (cs *clusterSim) faultActions(w int) []Action {
 			c.reset("fault")
 			r.Count("fault.conn_reset")
 		}})
+		if c.path == "/stream" {
+			// the replica's end of a stream goes away without the primary being
+			// told: the primary's handler lives on until its next write fails,
+			// while the replica is already reconnecting
+			acts = append(acts, Action{Name: "half-reset-" + c.String(), Weight: w, Do: func() {
+				c.resetClientSide("fault")
+				r.Count("fault.conn_half_reset")
+			}})
+		}
 	}
 	for _, n := range cs.cl.Nodes {
 		n := n
